@@ -79,24 +79,12 @@ theorem zerosIn_combine (d : Dom) (cliques : List Clique) (zs : List ZeroSpec) (
   rw [combine_eq]
   exact (foldl_step_spec d cliques zs b (fun _ => 0) hd hcl hcn hb hz (fun p hp => hsizes p hp)).1
 
-/-- `C10.zero_in_all_answers` with the vanishing of the joint asked on VALID assignments only (what `ZerosIn` provides) -/
+/-- alias of `Zeros.zero_in_all_answers` (= `C10.zero_in_all_answers`), which since audit 2 asks the vanishing of the
+joint on VALID assignments only (what `ZerosIn` provides) -/
 theorem zero_in_all_answers_valid (d : Dom) (pots : CliqueVec (LogOf K)) (z : ZeroSpec) (as : List Attr)
     (σ : Attr → Nat) (hd : d.WF) (hzc : ∀ a ∈ z.zc, a ∈ as)
     (hzero : ∀ τ, d.Valid τ → Hits z τ → joint pots τ = 0) (hσv : d.Valid σ) (hσ : Hits z σ) :
-    marginal d pots as σ = 0 := by
-  unfold marginal
-  rw [sumOver_congr d (d.invert as) σ (joint pots) (fun _ => 0), sumOver_zero]
-  intro v hv
-  apply hzero _ (valid_override d hd σ _ v hσv hv)
-  unfold Hits at hσ ⊢
-  have : z.zc.map (Dom.override σ (d.invert as) v) = z.zc.map σ := by
-    apply List.map_congr_left
-    intro a ha
-    apply override_of_not_mem
-    intro hmem
-    have := (List.mem_filter.mp hmem).2
-    simp [hzc a ha] at this
-  rw [this]
-  exact hσ
+    marginal d pots as σ = 0 :=
+  Zeros.zero_in_all_answers d pots z as σ hd hzc hzero hσv hσ
 
 end PGM.E2EZeros
